@@ -12,6 +12,15 @@ func init() {
 		c.Dialect = "none"
 		c.FaultPct = 0
 		c.Weights["crash"] = 0
+	}, Tail: func(r *PRNG, s *Sim) []Step {
+		// the last thing that happens before the edits stop is a pod, freshly
+		// re-created and still Pending, being rejected by its node: its failure is
+		// the only event left to wake the set
+		if !r.Chance(0.4) {
+			return nil
+		}
+		a := r.Intn(8)
+		return []Step{{K: "settle"}, {K: "podrm", A: a}, {K: "kube", A: a, B: 5}, {K: "settle", A: 1}, {K: "kube", A: a, B: 3}}
 	}}
 
 	// slots: interior-slot edits, stale caches
@@ -229,6 +238,16 @@ func init() {
 		c.Weights["crash"] = 6
 		c.Weights["advance"] = 10
 		c.Weights["mkrev"] = 3 // orphan / marker revisions: the adoption and label-sync calls get faults too
+	}}
+
+	// rolling updates (partitions, failed pods, several revisions in flight) with
+	// failing calls: partial reconciles of the update path
+	profiles["rollfault"] = &Profile{Name: "rollfault", Tweak: func(r *PRNG, c *Config) {
+		profiles["rolling"].Tweak(r, c)
+		c.Dialect = "truthful"
+		c.FaultPct = []int{10, 25, 40}[r.Intn(3)]
+		c.Weights["crash"] = 3
+		c.Weights["mkpod"] = 5
 	}}
 
 	// the documented scale-in edit on a healthy converged set, nothing else disturbing
